@@ -75,6 +75,12 @@ func runC12(c *Ctx) {
 		})
 	}
 	L.Floor("row-index-safe", 5, "row reads and toremove[...] reads in two functions")
+	// the character set handed in by the caller is only read (it is reused across calls by the commands)
+	c.purityObligations("input-unmodified", []purityTarget{
+		{"align", "*align", "RemoveCharacterSites", []int{1}},
+		{"gutils", "", "ContainsRune", []int{0}},
+	})
+	L.Floor("input-unmodified", 2, "character set of RemoveCharacterSites, ContainsRune")
 	L.Assumes("alignment shape invariant: every row reached through the receiver has the cached length")
 }
 
